@@ -1651,7 +1651,13 @@ func Exec(run *Run, ar *arena.Arena, va *arena.Vars, g *Globals, sites *SiteTabl
 		if ss.Cut > 0 {
 			x.poisoned = true
 		}
-		if ss.Deadlock != nil {
+		if ss.Deadlock != nil && ss.TaskPanic != nil {
+			// a goroutine started by the library panicked (the process would have
+			// died) and its caller waits for it for ever: not a verdict about
+			// liveness
+			x.poisoned = true
+			x.bad(fmt.Sprintf("a goroutine started by the library ended with a panic (%v); its caller never returns", ss.TaskPanic))
+		} else if ss.Deadlock != nil {
 			x.poisoned = true
 			if run.Prop == "C16" {
 				x.fail(ts, ts.curOp, ts.curOpP, "M-live", "deadlock", "a call made by a single caller never returns: "+ss.Deadlock.Error())
@@ -1914,7 +1920,12 @@ func Exec(run *Run, ar *arena.Arena, va *arena.Vars, g *Globals, sites *SiteTabl
 	x.St.InOpSw = s.InOpSw
 	x.St.TraceHash = s.Hash
 	run.Switches = s.Switches
-	if s.Deadlock != nil {
+	if s.Deadlock != nil && s.TaskPanic != nil {
+		x.poisoned = true
+		if x.viol == nil {
+			x.incon = Inconclusive{fmt.Sprintf("a goroutine started by the library ended with a panic (%v); its caller never returns", s.TaskPanic)}
+		}
+	} else if s.Deadlock != nil {
 		x.poisoned = true
 		x.St.Probes["library_deadlock"]++
 		if run.Prop == "C16" && x.viol == nil {
